@@ -39,8 +39,8 @@ def run_demo(demo, tree, workdir, outdir):
                     continue
                 if fn.endswith(('.py', '.cpp', '.cc', '.h', '.sh', '.hpp')):
                     txt = open(src_p, errors='replace').read()
-                    txt = re.sub(r'/tmp/wt\d?/C\d\d/\.\./C\d\d_out', env_dir, txt)
-                    txt = re.sub(r'/tmp/wt\d?/C\d\d_out', env_dir, txt)
+                    txt = re.sub(r'/tmp/wt\d?/C\d\d/\.\./C\d\d_out\d?', env_dir, txt)
+                    txt = re.sub(r'/tmp/wt\d?/C\d\d_out\d?', env_dir, txt)
                     txt = re.sub(r'/tmp/wt\d?/C\d\d(?![_\d])', tree, txt)
                     open(dst_p, 'w').write(txt)
                 else:
@@ -49,7 +49,7 @@ def run_demo(demo, tree, workdir, outdir):
     for i_ in range(1, 21):
         env['C%02d_WORKTREE' % i_] = tree
     # demonstrations that locate the tree relative to their own directory (<out>/../Cxx)
-    m_ = re.search(r'(C\d\d)_out', outdir)
+    m_ = re.search(r'(C\d\d)_out\d?', outdir)
     if m_:
         link = os.path.join(workdir, m_.group(1))
         if os.path.islink(link):
@@ -75,7 +75,8 @@ def main():
     keep = '--keep' in sys.argv
     base = sys.argv[sys.argv.index('--dir') + 1] if '--dir' in sys.argv else '/tmp/wt'
     offset = int(sys.argv[sys.argv.index('--offset') + 1]) if '--offset' in sys.argv else 0
-    outdir = '%s/%s_out' % (base, prop)
+    suffix = sys.argv[sys.argv.index('--suffix') + 1] if '--suffix' in sys.argv else ''
+    outdir = '%s/%s_out%s' % (base, prop, suffix)
     patches = sorted(glob.glob(os.path.join(outdir, 'change*.diff')))
     if not patches:
         print('no patches in', outdir)
